@@ -229,6 +229,13 @@ func (t *Tracer) walkH(v ssa.Value, fr []frame, hist []string, d int) {
 				}
 				return
 			}
+			// a field of the small struct a repository function handed back
+			// (`key := s.keyOf(file); … key.dir`): what the function's returns put into it
+			if fa, isFA := x.X.(*ssa.FieldAddr); isFA {
+				if c, cfr, ok := structSource(fa.X, fr); ok && t.walkCallField(c, fa.Field, cfr, hist, d) {
+					return
+				}
+			}
 			if fa, isFA := x.X.(*ssa.FieldAddr); isFA && t.Fields != nil {
 				if vals := t.Fields(fa.X.Type(), fa.Field); len(vals) > 0 {
 					for _, v := range vals {
@@ -247,6 +254,9 @@ func (t *Tracer) walkH(v ssa.Value, fr []frame, hist []string, d int) {
 		}
 		t.walkH(x.X, fr, hist, d+1)
 	case *ssa.Field:
+		if c, cfr, ok := structSource(x.X, fr); ok && t.walkCallField(c, x.Field, cfr, hist, d) {
+			return
+		}
 		if vals := aggLiteralVals(x); len(vals) > 0 {
 			for _, v := range vals {
 				t.walkH(v, fr, hist, d+1)
@@ -565,4 +575,102 @@ func LiteralRows(v ssa.Value) (rows []map[int]ssa.Value, field int, alloc *ssa.A
 		}
 	}
 	return rows, field, al, len(rows) > 0
+}
+
+// walkCallField continues a trace at field `field` of the struct value the call
+// returns: in the callee, at every return, with what the returned composite literal
+// stores into that field (nothing stored: the zero value, a constant). It reports
+// false when the callee is not entered or a return hands back something other than a
+// literal built in place.
+func (t *Tracer) walkCallField(c *ssa.Call, field int, fr []frame, hist []string, d int) bool {
+	callee := c.Call.StaticCallee()
+	if callee == nil || callee.Blocks == nil || c.Call.IsInvoke() || t.Descend == nil || !t.Descend(callee) || len(fr) >= t.maxDepth() {
+		return false
+	}
+	if callee.Signature.Results().Len() != 1 {
+		return false
+	}
+	type ret struct{ vals []ssa.Value }
+	var rets []ret
+	for _, b := range callee.Blocks {
+		for _, in := range b.Instrs {
+			rt, ok := in.(*ssa.Return)
+			if !ok {
+				continue
+			}
+			u, isU := rt.Results[0].(*ssa.UnOp)
+			if !isU || u.Op != token.MUL {
+				return false
+			}
+			al, isA := u.X.(*ssa.Alloc)
+			if !isA || len(StoresTo(al)) > 0 {
+				return false
+			}
+			var vals []ssa.Value
+			for _, ref := range *al.Referrers() {
+				if fa, isFA := ref.(*ssa.FieldAddr); isFA && fa.Field == field {
+					for _, r2 := range *fa.Referrers() {
+						if st, isS := r2.(*ssa.Store); isS && st.Addr == ssa.Value(fa) {
+							vals = append(vals, st.Val)
+						}
+					}
+				}
+			}
+			rets = append(rets, ret{vals})
+		}
+	}
+	if len(rets) == 0 {
+		return false
+	}
+	nf := append(append([]frame{}, fr...), frame{&c.Call, callee})
+	nh := append(append([]string{}, hist...), FuncName(callee))
+	for _, r := range rets {
+		for _, v := range r.vals {
+			t.walkH(v, nf, nh, d+1)
+		}
+	}
+	return true
+}
+
+// structSource: the call whose (struct) result v holds - directly, kept in a local that
+// is assigned once and never written field by field, or handed down as a by-value
+// parameter of the functions on the trace's call stack - and the stack at that call.
+func structSource(v ssa.Value, fr []frame) (*ssa.Call, []frame, bool) {
+	for d := 0; d < 8; d++ {
+		switch x := v.(type) {
+		case *ssa.Call:
+			return x, fr, true
+		case *ssa.Alloc:
+			if fieldWritten(x) {
+				return nil, nil, false
+			}
+			st := StoresTo(x)
+			if len(st) != 1 {
+				return nil, nil, false
+			}
+			v = st[0]
+		case *ssa.UnOp:
+			if x.Op != token.MUL {
+				return nil, nil, false
+			}
+			v = x.X
+		case *ssa.Parameter:
+			if len(fr) == 0 {
+				return nil, nil, false
+			}
+			f := fr[len(fr)-1]
+			found := false
+			for i, p := range f.callee.Params {
+				if p == x && i < len(f.call.Args) {
+					v, fr, found = f.call.Args[i], fr[:len(fr)-1], true
+				}
+			}
+			if !found {
+				return nil, nil, false
+			}
+		default:
+			return nil, nil, false
+		}
+	}
+	return nil, nil, false
 }
